@@ -305,6 +305,7 @@ fn l1_op(p: &Params, op: &SOp) {
         SOp::Adv(dt) => {
             seams::advance_ns(*dt);
             count("fault.clock_step_concurrent");
+            rep(|r| *r.counters.entry("sim_ns".to_string()).or_insert(0) += dt.unsigned_abs());
         }
         _ => {}
     }
@@ -418,6 +419,7 @@ fn l2_op(case: &SCase, op: &SOp) {
         SOp::Adv(dt) => {
             seams::advance_ns(*dt);
             count("fault.clock_step_concurrent");
+            rep(|r| *r.counters.entry("sim_ns".to_string()).or_insert(0) += dt.unsigned_abs());
         }
         _ => {}
     }
